@@ -63,7 +63,7 @@ def oracle_cases(ctx, flags_list, relation, n_corpus, n_mut, origins=None, n_ins
 
 def run_oracle(ctx, cases, pid_keys):
     """evaluate cases on the real code; classify failures against the known findings of this property"""
-    known = {f["id"]: f for f in core.findings_for(ctx)}
+    known = {f["id"]: f for f in core.findings_by_site(ctx)}
     results = semcheck.pool_map(semcheck.evaluate_case, cases)
     for case, r in zip(cases, results):
         st = r.get("status")
